@@ -23,11 +23,22 @@ class SigchldHelper:
     @contextlib.contextmanager
     def track(self):
         self._read_pipe, self._write_pipe = os.pipe()
+        # The pipe is written to by the interpreter's low-level (C) signal
+        # handler, i.e. at the moment a signal arrives. Writing to it from the
+        # Python-level handler is not enough: that handler only runs between
+        # bytecodes, so a SIGCHLD that arrives right before `wait()` enters
+        # its blocking `read()` would be noticed only after the `read()`
+        # returns - which it never does (lost wake-up).
+        os.set_blocking(self._write_pipe, False)
+        existing_wakeup_fd = signal.set_wakeup_fd(
+            self._write_pipe, warn_on_full_buffer=False
+        )
         existing_handler = signal.signal(signal.SIGCHLD, SigchldHelper._handler)
         try:
             yield
         finally:
             signal.signal(signal.SIGCHLD, existing_handler)
+            signal.set_wakeup_fd(existing_wakeup_fd)
             os.close(self._write_pipe)
             os.close(self._read_pipe)
             self._returncodes.clear()
@@ -35,12 +46,15 @@ class SigchldHelper:
             self._read_pipe = None
 
     def wait(self) -> Tuple[int, int]:
-        _ = os.read(self._read_pipe, 1)
+        while len(self._returncodes) == 0:
+            # Blocks until a signal arrives (or has arrived since the pipe was
+            # last drained). The Python-level handlers run once `read()`
+            # returns; `_handler()` then collects the exited children.
+            _ = os.read(self._read_pipe, 4096)
         return self._extract_any()
 
     def _add_returncode(self, pid: int, returncode: int) -> None:
         self._returncodes.append((pid, returncode))
-        os.write(self._write_pipe, b"\0")
 
     def _extract_any(self) -> Tuple[int, int]:
         # Precondition: `self._returncodes` must be non-empty.
